@@ -6,7 +6,7 @@
    does not crash and that the container ends with the contents implied by the
    mutations is checked by the harness in a child process. *)
 From Coq Require Import ZArith List Bool.
-From BT Require Import Model.Iter Proofs.IterProofs.
+From BT Require Import Model.Iter Proofs.IterProofs Model.IterPy Proofs.IterPyProofs.
 Import ListNotations.
 
 Theorem C15_next_total : forall (V : Type) (s : lstore V) (it : iter),
@@ -41,4 +41,29 @@ Example C15_example :
   let s2 := [(1%nat, ([(1%Z, 10%Z)], Some 2%nat)); (2%nat, ([(5%Z, 50%Z)], None))] in
   run Z [s1; s2; s2] (mkIt (Some 1%nat) 0 2 0 false)
   = [SEntry Z (1%Z, 10%Z); SRuntimeError Z; SRuntimeError Z].
+Proof. vm_compute. reflexivity. Qed.
+
+(* ---------------- pure Python (Model/IterPy.v) ---------------- *)
+(* the generator _TreeItems.__iter__ with the per-bucket generators, whose
+   index range is fixed when a bucket is entered while keys[i] is read when the
+   entry is asked for: on a leaf store mutated ARBITRARILY between steps every
+   next() yields an entry that is in a live leaf at that moment, ends the
+   iteration or raises IndexError -- and the model's fuel is never the reason
+   (at most two buckets are visited per step: the `done` flag) *)
+Theorem C15_py_next_total : forall (V : Type) (s : lstore V) (it : pyit),
+  closed V s -> py_holds V s it ->
+  let '(r, it') := py_next V py_fuel s it in
+  r <> POob V /\ py_holds V s it' /\
+  (forall kv, r = PEntry V kv ->
+     exists b items nxt i, lget V s b = Some (items, nxt) /\ nth_error items i = Some kv).
+Proof. exact py_next_total. Qed.
+Print Assumptions C15_py_next_total.
+
+Example C15_py_example :
+  let s1 := [(1%nat, ([(1%Z, 10%Z); (2%Z, 20%Z)], Some 2%nat)); (2%nat, ([(5%Z, 50%Z)], None))] in
+  let s2 := [(1%nat, ([(1%Z, 10%Z)], Some 2%nat)); (2%nat, ([(5%Z, 50%Z)], None))] in
+  let '(r1, i1) := py_next Z py_fuel s1 (mkPy (Some 1%nat) false 0 0 false) in
+  let '(r2, i2) := py_next Z py_fuel s2 i1 in
+  let '(r3, _) := py_next Z py_fuel s2 i2 in
+  (r1, r2, r3) = (PEntry Z (1%Z, 10%Z), PIndexError Z, PStop Z).
 Proof. vm_compute. reflexivity. Qed.
